@@ -334,7 +334,7 @@ def run(ctx):
     rng = ctx.rng
     import time
     t0 = time.time()
-    n = ctx.budget(32, 160)
+    n = ctx.budget(28, 160)   # quick: 7 corpus cases + each of the 21 aspects once
     mods = Mods()
     out = Outcome(rule=RULE)
     dist = {"aspect": {}, "history_len": {}, "checksum_cases": 0, "pairs_sharing_a_checksum": 0, "errors": 0}
